@@ -95,6 +95,11 @@ type state struct {
 	decSnap []byte
 }
 
+// subMJ's MarshalJSON hands out a piece of memory its owner keeps using (a cached encoding inside a larger buffer).
+type subMJ struct{ b []byte }
+
+func (s subMJ) MarshalJSON() ([]byte, error) { return s.b, nil }
+
 func render(v reflect.Value) string { return gen.Render(v) }
 
 // docFor builds a document for destination type index k from drawn parts.
@@ -335,6 +340,65 @@ func TestCheck(t *testing.T) {
 				}
 				st.outs = append(st.outs, output{b: b, snap: append([]byte(nil), b...), val: v, what: fmt.Sprintf("%s size %d", entry, size)})
 				check("marshal")
+			},
+			"marshal-sub": func(t *rapid.T) {
+				// members whose bytes are part of memory the caller still uses: a piece of an earlier Marshal result, or a
+				// piece of a roomy caller-owned buffer (as RawMessage and as the result of a MarshalJSON method)
+				room := []byte(`{"k":[1,2,3],"s":"a<b"}[true,null]"tail"`)
+				spare := rapid.SampledFrom([]int{0, 1, 8, 64}).Draw(t, "spare")
+				full := make([]byte, len(room)+spare)
+				copy(full, room)
+				for i := len(room); i < len(full); i++ {
+					full[i] = 0xEE
+				}
+				in := input{full: full, n: len(room), snap: append([]byte(nil), full...)}
+				st.ins = append(st.ins, in)
+				cuts := [][2]int{{0, 23}, {5, 12}, {23, 34}, {34, 40}, {17, 22}}
+				c := cuts[rapid.IntRange(0, len(cuts)-1).Draw(t, "cut")]
+				piece := full[c[0]:c[1]]
+				which := -1
+				if len(st.outs) > 0 && rapid.Bool().Draw(t, "from-output") {
+					i := rapid.IntRange(0, len(st.outs)-1).Draw(t, "which")
+					if o := st.outs[i]; !o.scribbled && len(o.b) > 2 && o.b[0] == '[' {
+						var first stdjson.RawMessage
+						d := stdjson.NewDecoder(bytes.NewReader(o.b[1:]))
+						if d.Decode(&first) == nil {
+							off := 1 + int(d.InputOffset())
+							piece, which = o.b[off-len(first):off], i
+						}
+					}
+				}
+				entry := rapid.SampledFrom([]string{"Marshal", "Marshal", "MarshalIndent", "MarshalNoEscape", "MarshalContext"}).Draw(t, "entry")
+				shape := rapid.IntRange(0, 3).Draw(t, "shape")
+				record(Step{Op: "marshal-sub:" + entry, Arg: fmt.Sprintf("cut %v output %d shape %d", c, which, shape), Arg2: spare})
+				rt.Journal("histories", func() string { x, _ := stdjson.Marshal(st.steps); return string(x) })
+				var v interface{}
+				switch shape {
+				case 0:
+					v = stdjson.RawMessage(piece)
+				case 1:
+					v = struct {
+						A int
+						R stdjson.RawMessage
+						M map[string]stdjson.RawMessage
+					}{1, piece, map[string]stdjson.RawMessage{"m": piece}}
+				case 2:
+					v = []interface{}{subMJ{piece}, &subMJ{piece}}
+				default:
+					v = map[string]interface{}{"x": subMJ{piece}, "y": stdjson.RawMessage(piece)}
+				}
+				var b []byte
+				var err error
+				if pv := rt.Guard(func() { b, err = marshal(entry, v) }); pv != nil || err != nil {
+					failf("%s of sub-slice members panicked/failed: %v %v", entry, pv, err)
+					return
+				}
+				want, _ := stdMarshal(entry, v)
+				if !bytes.Equal(b, want) {
+					failf("%s of sub-slice members returned bytes that differ from encoding/json's\n got  %q\n want %q", entry, clip(string(b)), clip(string(want)))
+				}
+				st.outs = append(st.outs, output{b: b, snap: append([]byte(nil), b...), val: v, what: entry + " of sub-slice members"})
+				check("marshal-sub")
 			},
 			"scribble-output": func(t *rapid.T) {
 				if len(st.outs) == 0 {
